@@ -177,6 +177,11 @@ STMTS = {
     "Delete-after": "v = 1\ndel v",
     "FunctionDef": "def v():\n    pass",
     "FunctionDef-decorated": "@c\ndef v():\n    pass",
+    # decorators rope's scope visitor knows by name, in every scope (not only directly in a class body)
+    "FunctionDef-property": "@property\ndef v(self=None):\n    pass",
+    "FunctionDef-staticmethod": "@staticmethod\ndef v():\n    pass",
+    "FunctionDef-classmethod": "@classmethod\ndef v(cls=None):\n    pass",
+    "FunctionDef-decorated-twice": "@c\n@property\ndef v(self=None):\n    pass",
     "AsyncFunctionDef": "async def v():\n    pass",
     "ClassDef": "class v:\n    pass",
     "ClassDef-decorated": "@c\nclass v(object):\n    pass",
